@@ -299,6 +299,108 @@ Proof.
   destruct b; [right; intros [_ H]; discriminate|left; auto].
 Qed.
 
+(* ---------- import_new_items below a splittable sequence ---------- *)
+Lemma insert_at_app_len {A} (a b : list A) x : insert_at (a ++ b) (List.length a) x = a ++ x :: b.
+Proof. induction a as [|y a IH]; cbn [app List.length insert_at]; [destruct b; reflexivity|]. rewrite IH. reflexivity. Qed.
+
+(* the insertion range of a new kind among present kinds that are ordered around it: one position *)
+Lemma p_range_loop_seq ty (idx : mtree -> list N) (c : mtree) :
+  forall A B i,
+    (forall x, In x (A ++ B) -> exists sub, find_sub_element T ty (m_name x) v = Val (Some (sub, idx x))) ->
+    (forall x, In x (A ++ B) -> exists g gd, find_common_group T ty (idx c) (idx x) = Val g /\ dt T g = Val gd /\ dt_mode gd = MSequence) ->
+    (forall x, In x A -> lex_cmp (idx c) (idx x) = Gt) -> (forall x, In x B -> lex_cmp (idx c) (idx x) = Lt) ->
+    p_range_loop T ty v (idx c) (map (fun x => Some (m_name x)) (A ++ B)) i i i =
+    Val (OK (i + N.of_nat (List.length A), i + N.of_nat (List.length A))).
+Proof.
+  induction A as [|a A IH]; intros B i Hf Hg HA HB.
+  - cbn [app List.length]. rewrite N.add_0_r. destruct B as [|b B]; cbn [map p_range_loop]; [reflexivity|].
+    destruct (Hf b (or_introl eq_refl)) as (sub & E). rewrite E. cbn [bind].
+    destruct (Hg b (or_introl eq_refl)) as (gr & gd & E1 & E2 & E3). rewrite E1. cbn [bind]. rewrite E2. cbn [bind]. rewrite E3.
+    rewrite N.eqb_refl. rewrite (HB b (or_introl eq_refl)). reflexivity.
+  - cbn [app map p_range_loop List.length].
+    destruct (Hf a (or_introl eq_refl)) as (sub & E). rewrite E. cbn [bind].
+    destruct (Hg a (or_introl eq_refl)) as (gr & gd & E1 & E2 & E3). rewrite E1. cbn [bind]. rewrite E2. cbn [bind]. rewrite E3.
+    rewrite N.eqb_refl. rewrite (HA a (or_introl eq_refl)).
+    rewrite IH; [f_equal; f_equal; f_equal; lia| | | |].
+    + intros x Hx. apply Hf. right. exact Hx.
+    + intros x Hx. apply Hg. right. exact Hx.
+    + intros x Hx. apply HA. right. exact Hx.
+    + exact HB.
+Qed.
+
+Lemma forall2_names (Q : htree -> mtree -> Prop) hs cs :
+  (forall h c, Q h c -> h_name h = m_name c) -> Forall2 Q hs cs ->
+  map item_name_of (map (@inl htree cdata) hs) = map (fun x => Some (m_name x)) cs.
+Proof. intros HQ. induction 1 as [|h c hs cs H HF IH]; cbn [map item_name_of]; [reflexivity|]. rewrite (HQ h c H), IH. reflexivity. Qed.
+
+Lemma forall2_cons_r_inv {A B} (R : A -> B -> Prop) l y l' :
+  Forall2 R l (y :: l') -> exists x l0, l = x :: l0 /\ R x y /\ Forall2 R l0 l'.
+Proof. intros H. inversion H; subst. eauto. Qed.
+
+Lemma p_import_seq ty bcontent g (Q : htree -> mtree -> Prop) (idx : mtree -> list N) (ks : list mtree) (p q : mtree -> bool) :
+  content_mode T ty = Val MSequence -> NoDup ks ->
+  (forall c, In c ks -> exists sub, find_sub_element T ty (m_name c) v = Val (Some (sub, idx c))) ->
+  (forall c x, In c ks -> In x ks -> c <> x ->
+     exists gr gd, find_common_group T ty (idx c) (idx x) = Val gr /\ dt T gr = Val gd /\ dt_mode gd = MSequence) ->
+  (forall l1 c l2, ks = l1 ++ c :: l2 ->
+     (forall x, In x l1 -> lex_cmp (idx c) (idx x) = Gt) /\ (forall x, In x l2 -> lex_cmp (idx c) (idx x) = Lt)) ->
+  (forall h c, Q h c -> h_name h = m_name c) ->
+  (forall x, In x ks -> q x = true -> p x = false) ->
+  forall todo done bs hsx idx0,
+    ks = done ++ todo ->
+    Forall2 (fun (b : id * N) c => nth_opt bcontent (N.to_nat (fst b)) = Some (inl (pview g c)) /\ Q (h_import g (pview g c)) c)
+            bs (filter q todo) ->
+    Forall2 Q hsx (filter (fun x => p x || q x) done ++ filter p todo) ->
+    exists hs2, p_import T ty bcontent bs idx0 g v (map inl hsx) = Val (OK (map inl hs2)) /\
+                Forall2 Q hs2 (filter (fun x => p x || q x) ks).
+Proof.
+  intros Hmode Hnd Hf Hgrp Hsorted HQ Hpq.
+  induction todo as [|t todo IH]; intros done bs hsx idx0 Hks Hbs Hx.
+  - cbn [filter] in Hbs, Hx. inversion Hbs; subst bs. cbn [p_import]. exists hsx. split; [reflexivity|].
+    rewrite app_nil_r in Hx, Hks. rewrite Hks. exact Hx.
+  - assert (Hks' : ks = (done ++ [t]) ++ todo) by (rewrite <- app_assoc; exact Hks).
+    assert (Ht : In t ks) by (rewrite Hks; apply in_or_app; right; left; reflexivity).
+    cbn [filter] in Hbs, Hx. destruct (q t) eqn:Eq.
+    + (* t is imported *)
+      pose proof (Hpq t Ht Eq) as Ep. rewrite Ep in Hx.
+      apply forall2_cons_r_inv in Hbs as ([bid ip] & bs' & -> & (Hn & Hq) & Hbs'). cbn [fst] in Hn.
+      set (A := filter (fun x => p x || q x) done) in *. set (B := filter p todo) in *.
+      destruct (Hsorted done t todo Hks) as (HGt & HLt).
+      assert (HinA : forall x, In x A -> In x done) by (intros x Hx0; apply filter_In in Hx0 as [H0 _]; exact H0).
+      assert (HinB : forall x, In x B -> In x todo) by (intros x Hx0; apply filter_In in Hx0 as [H0 _]; exact H0).
+      assert (Hin_ks : forall x, In x (A ++ B) -> In x ks /\ x <> t).
+      { intros x Hx0. pose proof Hnd as Hnd0. rewrite Hks in Hnd0. apply NoDup_remove_2 in Hnd0.
+        apply in_app_or in Hx0 as [Hx0|Hx0].
+        - split; [rewrite Hks; apply in_or_app; left; auto|]. intros ->. apply Hnd0. apply in_or_app. left. auto.
+        - split; [rewrite Hks; apply in_or_app; right; right; auto|]. intros ->. apply Hnd0. apply in_or_app. right. auto. }
+      cbn [p_import]. rewrite Hn. rewrite pview_name.
+      unfold p_insert_range. rewrite Hmode. cbn [bind]. change (MSequence =? MCharacters) with false. cbv iota.
+      destruct (Hf t Ht) as (sub & Ef). rewrite Ef. cbn [bind].
+      change ((MSequence =? MBag) || (MSequence =? MMixed)) with false. cbv iota.
+      rewrite (forall2_names Q hsx (A ++ B) HQ Hx).
+      rewrite (p_range_loop_seq ty idx t A B 0).
+      2:{ intros x Hx0. apply Hf. apply Hin_ks. exact Hx0. }
+      2:{ intros x Hx0. destruct (Hin_ks x Hx0) as (H1 & H2). apply Hgrp; auto. }
+      2:{ intros x Hx0. apply HGt. auto. }
+      2:{ intros x Hx0. apply HLt. auto. }
+      cbn [bind]. rewrite N.add_0_l.
+      set (k := N.of_nat (List.length A)).
+      replace (N.min (N.max (ip + idx0) k) k) with k by lia.
+      pose proof (Forall2_length _ _ _ Hx) as Hlen. rewrite app_length in Hlen.
+      rewrite map_length.
+      destruct (N.of_nat (List.length hsx) <? k) eqn:Elt; [apply N.ltb_lt in Elt; unfold k in Elt; lia|].
+      unfold k. rewrite Nat2N.id. rewrite <- insert_at_map.
+      apply (IH (done ++ [t]) bs' (insert_at hsx (List.length A) (h_import g (pview g t))) (idx0 + 1) Hks' Hbs').
+      rewrite filter_app. cbn [filter]. rewrite Eq, orb_true_r. fold A. rewrite <- app_assoc. cbn [app].
+      rewrite <- (insert_at_app_len A B t).
+      replace (List.length A) with (List.length A) at 1 by reflexivity.
+      apply Forall2_insert_at; [exact Hx|exact Hq].
+    + (* t stays where it is *)
+      apply (IH (done ++ [t]) bs hsx idx0 Hks' Hbs).
+      rewrite filter_app. cbn [filter]. rewrite Eq, orb_false_r. rewrite <- app_assoc.
+      destruct (p t); cbn [app]; exact Hx.
+Qed.
+
 (* the fuel only has to cover the depth of the master, or of the model it is merged into *)
 Theorem pmerge_rep_gen : forall fuel t, Good T defref v t -> forall F g inh a,
   (depth t < fuel \/ hdepth a < fuel)%nat -> (forall f, In f (g :: F) -> fver f = Some v) ->
@@ -367,7 +469,7 @@ Proof.
     (* the walk *)
     assert (Hcb : forall c, In c cb <-> In c ks /\ ing g c = true) by (intros c; apply filter_In).
     assert (NC : NoConflict pa pb sp).
-    { destruct Hkind as [(Hnb & Hall)|(Hbag & Hsp1 & _)].
+    { destruct Hkind as [(Hnb & Hall)|[(Hbag & Hsp1 & _)|(Hnb & Hsp1 & _)]].
       - right. intros a Hin _. apply in_pks_from in Hin as (k & c & Hk & ->).
         assert (Hc : In c ca) by (eapply nth_error_In; eauto).
         assert (Hcb' : In c cb).
@@ -375,6 +477,7 @@ Proof.
         destruct (in_nth_error cb c Hcb') as (j & Hj).
         pose proof (partner_b_some kcore ks Hinj cb Hb Nb (N.of_nat k) j c (Ha c Hc) Hj) as Ep. fold pb in Ep.
         unfold has_partner. rewrite Ep. reflexivity.
+      - left. rewrite Hsp in Hsp1. injection Hsp1 as ->. reflexivity.
       - left. rewrite Hsp in Hsp1. injection Hsp1 as ->. reflexivity. }
     destruct (walk_partition pa pb sp (N.of_nat (List.length hs)) K NC) as (wk & Ew & Em & Ea & Eb).
     rewrite Ew. cbn [bind].
@@ -461,17 +564,22 @@ Proof.
       replace (norm (Some S') [g]) with [g] in Hr by (unfold norm; rewrite bytes_eqb_false; auto).
       destruct c. rewrite pview_unfold in *. exact Hr. }
     (* import_new_items *)
+    assert (Epres : forall c, present (g :: F) c = present F c || ing g c) by (intros c; apply present_cons).
     assert (Himport : exists hs2 c2l,
                p_import T ty (map inl (map (pview g) cb)) (wk_b_only wk) 0 g v (map inl hs1) = Val (OK (map inl hs2)) /\
-               Forall2 Q hs2 c2l /\ Permutation c2l (ca ++ cimp) /\ (~ bag_ty T ty -> hs2 = hs1 /\ c2l = ca)).
-    { destruct Hkind as [(Hnb & Hall)|((Hmode & Hnamed) & Hsp1 & Hfind)].
+               Forall2 Q hs2 c2l /\ Permutation c2l (ca ++ cimp) /\ (~ bag_ty T ty -> c2l = filter (present (g :: F)) ks)).
+    { destruct Hkind as [(Hnb & Hall)|[((Hmode & Hnamed) & Hsp1 & Hfind)|(Hnb & Hsp1 & (Hmode & idx & Hfi & Hgrp & Hsorted))]].
       - (* all sub-elements are shared: nothing to import *)
         assert (Hnil : cimp = []).
         { apply nil_of_notin. intros c Hc. destruct (Hcimp c Hc) as (Hcb' & Hnp).
           apply Hcb in Hcb' as (Hck & _). unfold present in Hnp. rewrite (Hall c Hck) in Hnp. fold S in Hnp.
           apply negb_false_iff, is_empty_nil in Hnp. contradiction. }
         rewrite Hnil in Hbs. inversion Hbs as [E0|]. exists hs1, ca. cbn [p_import].
-        split; [reflexivity|]. split; [exact F1|]. split; [rewrite Hnil, app_nil_r; apply Permutation_refl|auto].
+        split; [reflexivity|]. split; [exact F1|]. split; [rewrite Hnil, app_nil_r; apply Permutation_refl|].
+        intros Hn. destruct (Hrig Hn) as (-> & _). symmetry. apply filter_ext_in. intros c Hc. rewrite Epres.
+        assert (Hp : present F c = true).
+        { unfold present. rewrite (Hall c Hc). fold S. destruct S; [congruence|reflexivity]. }
+        rewrite Hp. reflexivity.
       - destruct (p_import_bag ty (map inl (map (pview g) cb)) g Q Hmode (wk_b_only wk) cimp) with (idx := 0) (hsx := hs1) (cx := ca)
           as (hs2 & c2l & E2 & F2 & P2).
         + assert (HFc : Forall (fun c => (exists r, find_sub_element T ty (m_name c) v = Val (Some r)) /\ Q (h_import g (pview g c)) c) cimp).
@@ -481,7 +589,28 @@ Proof.
           eapply Forall2_impl_in; [exact HB2|]. intros p c _ (H1 & H2 & H3). auto.
         + exact F1.
         + exists hs2, c2l. split; [exact E2|]. split; [exact F2|]. split; [exact P2|].
-          intros Hn. exfalso. apply Hn. split; assumption. }
+          intros Hn. exfalso. apply Hn. split; assumption.
+      - (* a splittable sequence: every new sub-element is inserted at its place in the schema order *)
+        destruct (Hrig Hnb) as (Eca & _).
+        set (pp := present F). set (qq := fun c => ing g c && negb (present F c)).
+        assert (Ecimp : cimp = filter qq ks) by (unfold cimp, cb, qq; apply filter_filter).
+        destruct (p_import_seq ty (map inl (map (pview g) cb)) g Q idx ks pp qq Hmode Hnd Hfi Hgrp Hsorted) with
+          (todo := ks) (done := @nil mtree) (bs := wk_b_only wk) (hsx := hs1) (idx0 := 0) as (hs2 & E2 & F2).
+        + intros h c Hq. unfold Q in Hq. apply (Rep_shape T (g :: F) (Some S') c h Hq).
+        + intros x _ Hx. unfold qq in Hx. apply andb_true_iff in Hx as [_ Hx]. apply negb_true_iff in Hx. exact Hx.
+        + reflexivity.
+        + rewrite <- Ecimp.
+          assert (HFc : Forall (fun c => Q (h_import g (pview g c)) c) cimp) by (apply Forall_forall; exact Himp).
+          pose proof (Forall2_in_r _ _ _ _ Hbs HFc) as HB2.
+          eapply Forall2_impl_in; [exact HB2|]. intros p c _ (H1 & H2). auto.
+        + cbn [filter app]. unfold pp. rewrite <- Eca. exact F1.
+        + exists hs2, (filter (fun x => pp x || qq x) ks). split; [exact E2|]. split; [exact F2|].
+          assert (Eext : filter (fun x => pp x || qq x) ks = filter (present (g :: F)) ks).
+          { apply filter_ext. intros c. rewrite Epres. unfold pp, qq. destruct (present F c), (ing g c); reflexivity. }
+          split; [|intros _; exact Eext].
+          rewrite Eext, Eca, Ecimp. unfold qq.
+          eapply perm_trans; [|apply Permutation_sym; apply (filter_or_perm (present F) (ing g) ks)].
+          erewrite filter_ext; [apply Permutation_refl|]. intros c. apply Epres. }
     destruct Himport as (hs2 & c2l & E2 & F2 & P2 & Hrig2).
     rewrite E2. cbn [bind]. eexists. split; [reflexivity|]. split; [reflexivity|].
     intros inh'. cbn [h_set_content h_set_local]. apply Rep_unfold. rewrite HS'. fold S'.
@@ -497,22 +626,10 @@ Proof.
       exists (map inl hs2), (map inl hs2'). split; [reflexivity|].
       split; [apply RepItems_elems; exists hs2'; split; [reflexivity|exact Fh]|].
       split; [apply Permutation_map; exact Ph|left; exact Hbag].
-    + destruct (Hrig2 Hnbag) as (-> & ->). destruct (Hrig Hnbag) as (-> & _).
-      assert (Hnil : cimp = []).
-      { destruct Hkind as [(_ & Hall)|((Hm & Hn) & _)]; [|exfalso; apply Hnbag; split; assumption].
-        apply nil_of_notin. intros c Hc. destruct (Hcimp c Hc) as (Hcb' & Hnp).
-        apply Hcb in Hcb' as (Hck & _). unfold present in Hnp. rewrite (Hall c Hck) in Hnp. fold S in Hnp.
-        apply negb_false_iff, is_empty_nil in Hnp. contradiction. }
-      exists (map inl hs1), (map inl hs1). split; [reflexivity|].
+    + pose proof (Hrig2 Hnbag) as Ec2l.
+      exists (map inl hs2), (map inl hs2). split; [reflexivity|].
       split; [|split; [apply Permutation_refl|right; reflexivity]].
-      apply RepItems_elems. exists hs1. split; [reflexivity|].
-      assert (Efil : filter (present (g :: F)) ks = filter (present F) ks).
-      { apply filter_ext_in. intros c Hc. rewrite present_cons.
-        destruct Hkind as [(_ & Hall)|((Hm & Hn) & _)]; [|exfalso; apply Hnbag; split; assumption].
-        assert (Hp : present F c = true).
-        { unfold present. rewrite (Hall c Hc). fold S. destruct S; [congruence|reflexivity]. }
-        rewrite Hp. reflexivity. }
-      rewrite Efil. exact F1.
+      apply RepItems_elems. exists hs2. split; [reflexivity|]. rewrite <- Ec2l. exact F2.
 Qed.
 
 Theorem pmerge_rep : forall fuel t, (depth t < fuel)%nat -> Good T defref v t -> forall F g inh a,
